@@ -252,7 +252,12 @@ func typeKey(T types.Type) string {
 		if t.Empty() {
 			return "any"
 		}
-		return "iface"
+		// anonymous interfaces are told apart by their method sets
+		var ms []string
+		for i := 0; i < t.NumMethods(); i++ {
+			ms = append(ms, t.Method(i).Name())
+		}
+		return "iface{" + strings.Join(ms, ",") + "}"
 	case *types.Struct:
 		return "struct"
 	case *types.Signature:
